@@ -65,5 +65,18 @@ def main(argv=None):
                          exhaustive=getattr(mod, "EXHAUSTIVE", {}).get(a.tier, False) if isinstance(getattr(mod, "EXHAUSTIVE", None), dict) else False)
 
 
+def _guarded():
+    try:
+        return main()
+    except SystemExit:
+        raise
+    except BaseException:  # noqa: BLE001  a failure of the harness itself is never a verdict on pipefunc
+        import traceback
+
+        traceback.print_exc()
+        print(f"INCONCLUSIVE property={(sys.argv[1] if len(sys.argv) > 1 else '?').upper()} reason=harness failure (see traceback)")
+        return 2
+
+
 if __name__ == "__main__":
-    sys.exit(main())
+    sys.exit(_guarded())
